@@ -178,7 +178,7 @@ def make_blocks(indices, sectors, fill=("seq", 1), dtype="float64"):
                 a = a * 0
             store[s] = np.asarray(a, dtype=dtype)
         return {s: store[s] for s in sectors}
-    if fill[0] in ("rand", "rank1", "herm", "dominant", "posdef"):
+    if fill[0] in ("rand", "rank1", "herm", "herm-anti", "herm-diag", "dominant", "posdef"):
         # designed float data for the linear-algebra checks (values are not an enumerated dimension)
         rng = np.random.default_rng([int(fill[1]), 12345])
         store = {}
@@ -196,6 +196,14 @@ def make_blocks(indices, sectors, fill=("seq", 1), dtype="float64"):
                 a = np.outer(g((shp[0],)), g((shp[1],)))
             else:
                 a = g(shp)
+            if fill[0] in ("herm-anti", "herm-diag") and len(shp) == 2 and shp[0] == shp[1]:
+                # structured Hermitian blocks with exact zeros: support on the antidiagonal only (a hopping-like block,
+                # as many non-zeros as a diagonal matrix has) / on the diagonal only
+                v = g((shp[0],))
+                b = np.zeros(shp, dtype=a.dtype)
+                for i in range(shp[0]):
+                    b[i, (shp[0] - 1 - i) if fill[0] == "herm-anti" else i] = v[i]
+                a = b + b.conj().T
             if fill[0] in ("herm", "dominant", "posdef") and len(shp) == 2 and shp[0] == shp[1]:
                 if fill[0] == "herm":
                     a = a + a.conj().T
@@ -507,6 +515,9 @@ def sparsity_patterns(sectors, mode):
             out.append(tuple(sectors[:-1]))
         if n > 2:
             out.append(tuple(sectors[::2]))
+        if n > 3:
+            # very sparse: two far-apart sectors only (in a fuse every stored block then lands in a fused block of its own)
+            out.append((sectors[0], sectors[-1]))
         return out
     if mode == "probe0":
         out = [tuple(sectors)]
